@@ -65,6 +65,11 @@ func killChild() {
 	wseed, _ := strconv.ParseInt(os.Getenv("C03_WSEED"), 10, 64)
 	oseed, _ := strconv.ParseInt(os.Getenv("C03_OSEED"), 10, 64)
 	w := killWorld(wseed)
+	nUni := len(w.Uni)
+	probe := os.Getenv("C03_ORDER_PROBE") != ""
+	if probe {
+		addProbeBlobs(w, wseed) // behind the universe the op loop draws from
+	}
 	rng := rand.New(rand.NewSource(oseed))
 	jf, err := os.OpenFile(jpath, os.O_WRONLY|os.O_APPEND|os.O_CREATE, 0o644)
 	if err != nil {
@@ -82,7 +87,7 @@ func killChild() {
 		maxOps = n
 	}
 	for i := 0; i < maxOps; i++ {
-		b := rng.Intn(len(w.Uni))
+		b := rng.Intn(nUni)
 		recv := rng.Intn(100) < 65
 		if recv {
 			fmt.Fprintf(jf, "B %d R %d\n", i, b)
@@ -96,6 +101,28 @@ func killChild() {
 			os.Exit(6)
 		}
 		fmt.Fprintf(jf, "A %d\n", i)
+	}
+	if probe {
+		// traced run only: every probe blob is received and then removed, so that the system-call
+		// trace shows how a remove of a present blob changes its pack, for a spread of body sizes
+		i := maxOps
+		for b := nUni; b < len(w.Uni); b++ {
+			for _, recv := range []bool{true, false} {
+				if recv {
+					fmt.Fprintf(jf, "B %d R %d\n", i, b)
+					_, err = blobserver.Receive(ctx, s, w.Uni[b].Ref, bytes.NewReader(w.Uni[b].Data))
+				} else {
+					fmt.Fprintf(jf, "B %d D %d\n", i, b)
+					err = s.RemoveBlobs(ctx, []blobRef{w.Uni[b].Ref})
+				}
+				if err != nil {
+					fmt.Fprintf(jf, "E %d %s\n", i, strings.ReplaceAll(err.Error(), "\n", " "))
+					os.Exit(6)
+				}
+				fmt.Fprintf(jf, "A %d\n", i)
+				i++
+			}
+		}
 	}
 	fmt.Fprintf(jf, "X done\n")
 	os.Exit(0)
@@ -417,8 +444,10 @@ func killRuns(r *ev.Run, kind, scratch string, kills int) {
 							}
 						}
 						switch {
+						case present && !intact && liveHeader:
+							o.info.Kind = "remove-zeroed-only" // body gone under a LIVE header, row still there
 						case present && !intact:
-							o.info.Kind = "remove-header-zeroed" // body gone, row still there
+							o.info.Kind = "remove-header-zeroed" // body gone, header rewritten, row still there
 						case liveHeader && present:
 							o.info.Kind = "remove-none"
 						case present:
